@@ -375,7 +375,9 @@ func c06writeOf(c *ast.CallExpr, depth int) (recv string, isWrite, tail bool) {
 // c06canonRank: a rank for every statement of body in a NORMALISED source order, so that lists "in source order" do
 // not depend on which of two exclusive branches the author wrote first.  The only normalisation: the branches of a
 // negated test are visited positive-first, i.e.
-//     if !c { B } else { A }        and        if !c { B; return }; A…
+//
+//	if !c { B } else { A }        and        if !c { B; return }; A…
+//
 // are both ranked like `if c { A… } else { B }`.  Everything else keeps its textual order.  The returned function
 // gives the rank of the innermost ranked statement that contains pos.
 func c06canonRank(body *ast.BlockStmt) func(pos token.Pos) int {
